@@ -104,6 +104,11 @@ macro_rules! registry {
         pub fn pfx_dispatch(key: &str, val: &str) -> Option<String> {
             match key { $( $key => Some(pfx::<$t>(val)), )* _ => None }
         }
+        pub fn sinke_dispatch(key: &str, val: &str, kind: &str, cap: usize) -> Option<String> {
+            match key { $( $key => { let v = <$t as Canon>::parse(&mut P::new(val));
+                                      if minicbor::to_vec(&v).is_err() { return Some("refused".into()) }
+                                      Some(crate::ops_sink::on_sink(kind, cap, &crate::ops_sink::Enc(&v))) } )* _ => None }
+        }
         pub fn dt_dispatch(key: &str, inp: &[u8], pos: usize) -> Option<String> {
             match key { $( $key => Some(dt::<$t>(inp, pos)), )* _ => dt_borrowed(key, inp, pos) }
         }
